@@ -197,8 +197,8 @@ def run(case, ctx):
     rng = rng_for(ctx["seed"], ID, case["i"])
     T, p, f, dt, s = (case[k] for k in ("T", "p", "f", "dt", "s"))
     D = int(rng.choice([2, 2, 3]))
-    ds = int(rng.integers(0, 2))
-    sp = tuple(int(v) * (2 if ds else 1) for v in rng.integers(1, 3, size=D))
+    ds = int(rng.choice([0, 0, 1, 1, 2]))
+    sp = tuple(int(v) * (2**ds) for v in rng.integers(1, 3, size=D))
     dyn_sig = DYN[int(rng.integers(len(DYN)))]
     const_sig = CONST[int(rng.integers(len(CONST)))]
     if D == 3:
